@@ -7,7 +7,7 @@ From Coq Require Import Sorting.Sorted Sorting.Permutation.
 From V Require Import lib.Tree lib.C12_aux gen.Gen_C12_kern model.C12 proofs.C12 proofs.C12_nan proofs.C12_murphy proofs.C12_sum proofs.C12_mats proofs.C12_scaling.
 
 (* firm_single_spec: for every rational forecast, observation, threshold (ties included) and risk parameter, both
-   threshold assignments (any string other than "lower" behaves as "upper"; the guard admits only the two) and
+   threshold assignments (any string other than "lower" behaves as "upper"; the guard lets only these two through) and
    discount 0 (DNo) / finite non-zero (DFin) / inf (DInf):
      overforecast  = (1-alpha) * scale(t - o)  if the case is a false alarm (lower: o <= t < f, upper: o < t <= f), else 0
      underforecast = alpha * scale(o - t)      if the case is a miss        (lower: f <= t < o, upper: f < t <= o), else 0
@@ -210,10 +210,10 @@ Proof. exact rms_m_value. Qed.
 Print Assumptions C12_rms_cells.
 
 (* the regenerated scalar guards: what passes them is inside the domain of the theorems above, and valid arguments pass *)
-Theorem C12_firm_guard_admits_only_valid : forall (a : Q) (d : xv) (s : string),
+Theorem C12_firm_guard_passes_only_valid : forall (a : Q) (d : xv) (s : string),
   gen_guard_firm (XFin a) d s = None -> 0 < a < 1 /\ (s = "lower" \/ s = "upper")%string.
 Proof. exact firm_guard_pass. Qed.
-Print Assumptions C12_firm_guard_admits_only_valid.
+Print Assumptions C12_firm_guard_passes_only_valid.
 
 Theorem C12_firm_guard_accepts_valid : forall (a : Q) (d : xv) (s : string),
   0 < a < 1 -> disc_ok d -> (s = "lower" \/ s = "upper")%string -> gen_guard_firm (XFin a) d s = None.
